@@ -22,6 +22,9 @@ type c6Gen struct {
 	Defers int    `json:"defers,omitempty"` // callbacks registered per GenerateType call
 	Nested bool   `json:"nested,omitempty"` // the first callback registers further callbacks from inside
 	Peek   bool   `json:"peek,omitempty"`   // asks Context.Doc about the types of imported packages before rendering
+	// Returns: what GenerateType returns: "" (nil for every type) | skip-some | ignore-some | wrapignore-some (for every second type by name);
+	// whatever it returns, every enabled type must still be handed over exactly once
+	Returns string `json:"returns,omitempty"`
 }
 
 type c6Case struct {
@@ -44,6 +47,7 @@ func genC06(t *rapid.T) c6Case {
 		g := c6Gen{Name: n, Mode: "fixed", Alias: rapid.Bool().Draw(t, "alias"), Defers: rapid.IntRange(0, 2).Draw(t, "defers")}
 		g.Nested = g.Defers > 0 && rapid.IntRange(0, 2).Draw(t, "nesteddefer") == 0
 		g.Peek = rapid.IntRange(0, 2).Draw(t, "peek") == 0
+		g.Returns = rapid.SampledFrom([]string{"", "", "skip-some", "ignore-some", "wrapignore-some"}).Draw(t, "returns")
 		if rapid.IntRange(0, 2).Draw(t, "mode") == 0 {
 			g.Mode = "new"
 		}
@@ -120,6 +124,26 @@ func (c *c6Case) scripts() []*script.Script {
 				}
 			}
 			s.Default.Defers = append(s.Default.Defers, d)
+		}
+		if g.Returns != "" {
+			s.PerType = map[string]script.Action{}
+			errKind := strings.TrimSuffix(g.Returns, "-some")
+			for i := range c.Mod.Pkgs {
+				p := &c.Mod.Pkgs[i]
+				pkgLevel, _ := p.Types()
+				var names []string
+				for _, ti := range pkgLevel {
+					names = append(names, ti.Name)
+				}
+				sort.Strings(names)
+				for k, n := range names {
+					if k%2 == 0 {
+						a := s.Default
+						a.Err = errKind
+						s.PerType[c.Mod.PkgPath(p)+"."+n] = a
+					}
+				}
+			}
 		}
 		out = append(out, s)
 	}
